@@ -541,7 +541,9 @@ pub fn run_trace(cfg: &Cfg, real_delay: bool) -> Vec<String> {
                 (3, 11) => sim.bounce(last.as_str()),
                 (4, 5) => sim.bounce("h0"),
                 (4, 9) if n > 1 => sim.partition_oneway("h0", last.as_str()),
-                (4, 15) => sim.bounce(last.as_str()),
+                // every host at once, selected by a regular expression: the order in which the
+                // matched hosts are visited is part of the execution
+                (4, 15) => sim.bounce(regex::Regex::new("^h[0-9]$").unwrap()),
                 (4, 20) if n > 1 => sim.repair_oneway("h0", last.as_str()),
                 (5, 4) if n > 1 => sim.hold("h0", last.as_str()),
                 (5, 6) | (5, 17) | (5, 18) if n > 1 => {
